@@ -54,7 +54,15 @@ def gen_plan(rng, tier, run):
                 else:
                     n = 65527 - (4 if s["kind"] == "ed" else 0)
                 r2 = random.Random(rng.randrange(1 << 30))
-                s["payload"] = bytes(r2.randrange(256) for _ in range(n)).hex() if n < 6000 else (bytes(range(256)) * 256)[:n].hex()
+                body = bytes(r2.randrange(256) for _ in range(n)) if n < 6000 else (bytes(range(256)) * 256)[:n]
+                pad = rng.random()
+                if pad < 0.2:
+                    # NUL padding / a zero trailer at the end of the payload (pad-count words, alignment), or nothing but zeros
+                    k = min(n, rng.choice([1, 2, 4, 8]))
+                    body = body[:n - k] + bytes(k)
+                elif pad < 0.25:
+                    body = bytes(n)
+                s["payload"] = body.hex()
     return {"pels": pels, "plugins": plugins, "skip_plugins": rng.random() < 0.25,
             # the encoding of the terminal / pipe peltool prints to (LANG=C, PYTHONIOENCODING=...)
             "stdout_encoding": rng.choice(["utf-8", "utf-8", "ascii", "latin-1"]),
